@@ -1422,7 +1422,7 @@ def check_C12(ctx):
 def check_C13(ctx):
     std_check(ctx, [('MC_Core', 'MC_Core_small.cfg'), ('MC_Core', 'MC_Core_reap.cfg')],
               lambda rng: gen_core_prog(rng, maxb=10, flagset=(0, 0, F_DETACH, F_PF, F_DETACH | F_PF, F_NULLID | F_DETACH),
-                                        reap=('JN', 'TJ', 'TJ', 'DT', 'DT')),
+                                        reap=('JN', 'TJ', 'TJ', 'DT', 'DT', 'TJN')),
               30, 6,
               [('reaped_twice', mut_first(ev('DescFree'), lambda evs, i: evs[:i + 1] + [evs[i]] + evs[i + 1:])),
                ('tryjoin_busy_although_finished', mut_first(lambda e: e['e'] == 'TryJoinChk' and e['a'][2] == 1, set_arg(2, 0))),
@@ -1914,6 +1914,12 @@ def gen_cond_prog(rng):
             opener += [(OP['CBCO'], 0, v, 1)] + ([(OP['YD'], rng.choice((0, 2)), 0, 0)] if rng.random() < 0.4 else [])
         bodies.insert(rng.randrange(len(bodies) + 1), opener)
         return {'init': [], 'bodies': _spawn_join(rng, bodies)}
+    if rng.random() < 0.15:
+        # turnstile: the threads pass one at a time in ticket order; each one waits for its number and calls the next
+        n = rng.randint(2, 5)
+        order = list(range(n)); rng.shuffle(order)
+        bodies = [[(OP['WAITV'], 0, t, 0), (OP['CBC'], 0, t + 1, 1)] for t in order]
+        return {'init': [], 'bodies': _spawn_join(rng, bodies)}
     if rng.random() < 0.3:   # gate: broadcast releases every waiter
         nwait = rng.randint(1, 4)
         bodies = [[(OP['WAITV'], 0, 1, 0)] for _ in range(nwait)]
@@ -2196,10 +2202,14 @@ def gen_timed_prog(rng):
 def gen_once_prog(rng):
     nt = rng.randint(1, 5)
     bodies = []
+    withmutex = rng.random() < 0.4       # control 2: the init routine blocks on mutex 3, which other threads hold across yields
+    if withmutex:
+        for _ in range(rng.randint(1, 2)):
+            bodies.append([(OP['INC'], 3, rng.choice((1, 3)), 0)] * rng.randint(1, 2))
     for _ in range(nt):
         ops = []
         for _ in range(rng.randint(1, 3)):
-            ops.append((OP['ONCE'], rng.choice((0, 0, 1)), 0, 0))
+            ops.append((OP['ONCE'], rng.choice((0, 0, 1, 2, 2) if withmutex else (0, 0, 1)), 0, 0))
             if rng.random() < 0.3:
                 ops.append((OP['YD'], rng.choice((0, 1, 2)), 0, 0))
         bodies.append(ops)
